@@ -130,6 +130,52 @@ struct Composite {
     want_rereg: Rc<Cell<bool>>,
     /// indices of the leaves whose callback ran
     ran: Rc<std::cell::RefCell<Vec<usize>>>,
+    /// leaves that are still part of the source (a retired leaf is unregistered at the next re-registration and takes
+    /// no token any more, so the leaves after it move to lower sub-ids)
+    active: Rc<std::cell::RefCell<Vec<bool>>>,
+    registered: Vec<bool>,
+}
+
+impl Composite {
+    fn reg_leaf(leaf: &mut Leaf, poll: &mut Poll, tf: &mut TokenFactory, fresh: bool) -> calloop::Result<()> {
+        match leaf {
+            Leaf::Gen(g) => {
+                if fresh {
+                    g.register(poll, tf)
+                } else {
+                    g.reregister(poll, tf)
+                }
+            }
+            Leaf::Tim(tm) => {
+                if fresh {
+                    tm.register(poll, tf)
+                } else {
+                    tm.reregister(poll, tf)
+                }
+            }
+            Leaf::Raw { fd, token } => {
+                let t = tf.token();
+                if fresh {
+                    unsafe { poll.register(fd.as_fd(), Interest::READ, Mode::Level, t)? };
+                } else {
+                    poll.reregister(fd.as_fd(), Interest::READ, Mode::Level, t)?;
+                }
+                *token = Some(t);
+                Ok(())
+            }
+        }
+    }
+    fn unreg_leaf(leaf: &mut Leaf, poll: &mut Poll) -> calloop::Result<()> {
+        match leaf {
+            Leaf::Gen(g) => g.unregister(poll),
+            Leaf::Tim(tm) => tm.unregister(poll),
+            Leaf::Raw { fd, token } => {
+                poll.unregister(fd.as_fd())?;
+                *token = None;
+                Ok(())
+            }
+        }
+    }
 }
 
 impl EventSource for Composite {
@@ -175,44 +221,35 @@ impl EventSource for Composite {
     }
 
     fn register(&mut self, poll: &mut Poll, tf: &mut TokenFactory) -> calloop::Result<()> {
-        for leaf in self.leaves.iter_mut() {
-            match leaf {
-                Leaf::Gen(g) => g.register(poll, tf)?,
-                Leaf::Tim(tm) => tm.register(poll, tf)?,
-                Leaf::Raw { fd, token } => {
-                    let t = tf.token();
-                    unsafe { poll.register(fd.as_fd(), Interest::READ, Mode::Level, t)? };
-                    *token = Some(t);
-                }
+        let active = self.active.borrow().clone();
+        for (i, leaf) in self.leaves.iter_mut().enumerate() {
+            if active[i] {
+                Composite::reg_leaf(leaf, poll, tf, true)?;
+                self.registered[i] = true;
             }
         }
         Ok(())
     }
 
     fn reregister(&mut self, poll: &mut Poll, tf: &mut TokenFactory) -> calloop::Result<()> {
-        for leaf in self.leaves.iter_mut() {
-            match leaf {
-                Leaf::Gen(g) => g.reregister(poll, tf)?,
-                Leaf::Tim(tm) => tm.reregister(poll, tf)?,
-                Leaf::Raw { fd, token } => {
-                    let t = tf.token();
-                    poll.reregister(fd.as_fd(), Interest::READ, Mode::Level, t)?;
-                    *token = Some(t);
-                }
+        let active = self.active.borrow().clone();
+        for (i, leaf) in self.leaves.iter_mut().enumerate() {
+            if active[i] {
+                Composite::reg_leaf(leaf, poll, tf, !self.registered[i])?;
+                self.registered[i] = true;
+            } else if self.registered[i] {
+                Composite::unreg_leaf(leaf, poll)?;
+                self.registered[i] = false;
             }
         }
         Ok(())
     }
 
     fn unregister(&mut self, poll: &mut Poll) -> calloop::Result<()> {
-        for leaf in self.leaves.iter_mut() {
-            match leaf {
-                Leaf::Gen(g) => g.unregister(poll)?,
-                Leaf::Tim(tm) => tm.unregister(poll)?,
-                Leaf::Raw { fd, token } => {
-                    poll.unregister(fd.as_fd())?;
-                    *token = None;
-                }
+        for (i, leaf) in self.leaves.iter_mut().enumerate() {
+            if self.registered[i] {
+                Composite::unreg_leaf(leaf, poll)?;
+                self.registered[i] = false;
             }
         }
         Ok(())
@@ -229,6 +266,7 @@ fn composite(leaves: &str, ops: &str) -> String {
     let fds: Vec<Fd> = leaves.chars().map(|_| Fd(Rc::new(eventfd(0, EventfdFlags::CLOEXEC | EventfdFlags::NONBLOCK).unwrap()))).collect();
     let want_rereg = Rc::new(Cell::new(false));
     let ran = Rc::new(std::cell::RefCell::new(Vec::new()));
+    let active = Rc::new(std::cell::RefCell::new(vec![true; leaves.len()]));
     let has_timer = leaves.contains('t');
     let src = Composite {
         leaves: leaves
@@ -242,6 +280,8 @@ fn composite(leaves: &str, ops: &str) -> String {
             .collect(),
         want_rereg: want_rereg.clone(),
         ran: ran.clone(),
+        active: active.clone(),
+        registered: vec![false; leaves.len()],
     };
     let kinds: Vec<char> = leaves.chars().collect();
     let token = match el.handle().insert_source(src, |_, _, _| {}) {
@@ -285,9 +325,17 @@ fn composite(leaves: &str, ops: &str) -> String {
             "update" => ok &= el.handle().update(&token).is_ok(),
             "disable" => ok &= el.handle().disable(&token).is_ok(),
             "enable" => ok &= el.handle().enable(&token).is_ok(),
+            // the first leaf still active leaves the source (effective at the next re-registration)
+            "retire" => {
+                let mut a = active.borrow_mut();
+                if let Some(i) = a.iter().position(|x| *x) {
+                    a[i] = false;
+                }
+            }
             "rereg" => {
-                // an event on the first fd-backed leaf, answered by PostAction::Reregister
-                if let Some(i) = kinds.iter().position(|c| *c != 't') {
+                // an event on the first active fd-backed leaf, answered by PostAction::Reregister
+                let act = active.borrow().clone();
+                if let Some(i) = (0..kinds.len()).find(|i| kinds[*i] != 't' && act[*i]) {
                     want_rereg.set(true);
                     let _ = rustix::io::write(fds[i].as_fd(), &1u64.to_ne_bytes());
                     ok &= el.dispatch(Some(std::time::Duration::ZERO), &mut ()).is_ok();
@@ -297,6 +345,23 @@ fn composite(leaves: &str, ops: &str) -> String {
         }
         stage(&mut out, &mut own);
     }
+    // every fd-backed leaf that is registered answers an event on its fd
+    let mut poked = Vec::new();
+    for i in 0..kinds.len() {
+        if kinds[i] == 't' {
+            continue;
+        }
+        ran.borrow_mut().clear();
+        let _ = rustix::io::write(fds[i].as_fd(), &1u64.to_ne_bytes());
+        ok &= el.dispatch(Some(std::time::Duration::ZERO), &mut ()).is_ok();
+        if ran.borrow().contains(&i) {
+            poked.push(i.to_string());
+        }
+        // (an unanswered write is taken back so that it cannot be answered later)
+        let mut b = [0u8; 8];
+        let _ = rustix::io::read(fds[i].as_fd(), &mut b);
+    }
+    let poked = if poked.is_empty() { "-".to_string() } else { poked.join(",") };
     // the timers run out: only timer leaves have a reason to be called back
     let mut fired = String::from("-");
     if has_timer {
@@ -310,5 +375,5 @@ fn composite(leaves: &str, ops: &str) -> String {
             fired = v.iter().map(|i| i.to_string()).collect::<Vec<_>>().join(",");
         }
     }
-    format!("{} own={} ok={} fired={}", out.join(";"), own, ok, fired)
+    format!("{} own={} ok={} poked={} fired={}", out.join(";"), own, ok, poked, fired)
 }
